@@ -40,14 +40,17 @@ ASSUMPTIONS = ['gfortran 12 -O0 with run-time checks is the reference semantics'
 BUDGET_S = {'quick': 400, 'thorough': 3000}
 CASE_TIMEOUT_S = 240
 
-MODES = ['outline_fn', 'outline_tf', 'extract_fn', 'extract_tf', 'both_tf']
+MODES = ['outline_fn', 'outline_tf', 'extract_fn', 'extract_tf', 'both_tf', 'outline_file']
 
 OUT = ['outline_fn', 'outline_tf']
+OUTALL = OUT + ['outline_file']
 EXT = ['extract_fn', 'extract_tf']
 HAZ = {
     'loopvar_read_after': (OUT, 'outline:loop-variable-of-region-read-after-region-not-passed-back'),
     'derived_default_init_partial_write': (OUT, 'outline:partially-written-derived-type-becomes-intent-out'),
     'pragma_list_with_spaces': (OUT, 'outline:pragma-variable-list-with-spaces'),
+    'override_array': (OUT, 'outline:intent-override-naming-an-array-duplicates-the-argument'),
+    'inner_array_two_subscripts': (EXT, 'extract:host-array-referenced-with-two-subscripts-duplicates-the-argument'),
     'override_case': (OUT, 'outline:pragma-variable-list-other-spelling'),
     'call_internal_in_region': (OUT, 'outline:region-calls-internal-procedure'),
     'return_in_region': (OUT, 'outline:return-inside-region'),
@@ -78,6 +81,7 @@ HAZ = {
     'inner_fun_in_condition': (EXT, 'extract:internal-function-in-conditions'),
     'inner_shadow_and_host': (EXT, 'extract:local-shadowing-host-variable'),
     'inner_kind_from_module_import': (EXT, 'extract:kind-imported-by-enclosing-module'),
+    'file_layout_extract': (['extract_tf'], 'extract:free-subroutine-called-with-keyword-arguments-needs-explicit-interface'),
     'routine_without_contains': (['extract_tf'], 'extract:transformation-on-module-with-routine-without-contains'),
 }
 HAZ_ORDER = sorted(HAZ)
@@ -96,7 +100,9 @@ def plan(idx, rng):
             flags['derived'] = True
     else:
         mode = MODES[(idx - idx // 4) % len(MODES)]
-    if mode in OUT:
+    if mode == 'outline_file' or hazard == 'file_layout_extract':
+        flags['layout'] = 'file'
+    if mode in OUTALL:
         flags['regions'] = rng.choice([1, 1, 2])
         flags['internals'] = 0
     elif mode in EXT:
@@ -121,6 +127,11 @@ def transform(case, mode):
     t = Sourcefile.from_source(case.files[0][1])
     o = Sourcefile.from_source(case.files[1][1], definitions=t.definitions)
     before = [(case.files[0][0], t.to_fortran()), (case.files[1][0], o.to_fortran())]
+    if case.files[1][0] == 'kern.F90':
+        nbefore = len(o.subroutines)
+        ExtractTransformation(extract_internals=mode != 'outline_file', outline_regions=True).apply(o)
+        after = [(case.files[0][0], t.to_fortran()), (case.files[1][0], o.to_fortran())]
+        return before, after, len(o.subroutines) - nbefore
     mod = o['omod']
     nbefore = len(mod.subroutines)
     kern = o['kern']
@@ -165,7 +176,7 @@ def evaluate(case, mode, wd, counters):
     return out
 
 
-FAMILY = {'outline_fn': 'outline', 'outline_tf': 'outline', 'extract_fn': 'extract', 'extract_tf': 'extract',
+FAMILY = {'outline_fn': 'outline', 'outline_tf': 'outline', 'outline_file': 'outline', 'extract_fn': 'extract', 'extract_tf': 'extract',
           'both_tf': 'extract+outline'}
 
 
